@@ -727,6 +727,15 @@ func (w *World) undoBlock(n *Node, b *Block) {
 			// map forest says "since we're full, we can just build the proofs")
 			uproof = u.Proof{Targets: b.Proof.Targets}
 			w.stats.Reach["undo_with_targets_only"]++
+			if SubRng(b.Seed^uint64(n.idx+1)*0x0d1, "undowindow").Bool() {
+				// ... as an empty window into a buffer that holds something else: no
+				// hashes, but capacity (the caller's memory behind it is not the callee's)
+				buf := make([]H, len(b.Proof.Proof)+3)
+				for i := range buf {
+					buf[i] = H{0xb0, 0xff, byte(i)}
+				}
+				uproof.Proof = buf[:0]
+			}
 		}
 		g := w.fp.begin("Undo", b.Dels, uproof.Targets, uproof.Proof, prevRoots)
 		err, _ := guard(func() error { return n.acc.Undo(uint64(len(b.Adds)), uproof, b.Dels, prevRoots) })
